@@ -25,12 +25,12 @@ COMPONENTS_REAL = ["gemclus forward passes (_infer) and back-propagation (_compu
 COMPONENTS_STUB = ["reference GEMINI scores (gemsim.refs.ref_gemini, POT emd2 called directly) as the differentiated objective",
                    "BaseOptimizer.update_params (real / scaled / teleport)", "RandomState.permutation (faithful or adversarial)"]
 ASSUMPTIONS = ["numerical oracle: errors below 2% of a parameter array's largest gradient entry are not decided",
-               "steps with a prediction outside [1e-4, 1-1e-4], non-finite directions, or coordinates on a kink (one-sided "
+               "steps with a prediction outside [1e-6, 1-1e-6] (calibrated: no alarm on the unchanged tree down to 1e-8), non-finite directions, or coordinates on a kink (one-sided "
                "derivatives disagree) are counted and skipped, not judged",
                "reference GEMINI = documented definition (p(y)-weighted KL/TV/Hellinger^2/(chi2+1)/2/MMD/W1), cross-checked "
                "against the library's scores to 1e-12 during the run (mismatch is reported as a probe, not as a C03 violation)"]
 
-SAT_LO, SAT_HI = 1e-4, 1 - 1e-4
+SAT_LO, SAT_HI = float(__import__("os").environ.get("GEMSIM_SAT", "1e-6")), 1 - float(__import__("os").environ.get("GEMSIM_SAT", "1e-6"))
 REL_TOL = 2e-2
 MAX_COORDS = 90
 
